@@ -77,6 +77,10 @@ pub fn replay(path: &str) -> Value {
                         fail("AutoStream::choice(pty)", json!(d), &c["decision"]);
                     }
                     let s = anstream::AutoStream::auto(f);
+                    checks += 1;
+                    if !s.is_terminal() {
+                        fail("AutoStream::auto(pty).is_terminal", json!(false), &json!(true));
+                    }
                     let rep = choice_name(s.current_choice());
                     if json!(rep) != c["reported"] {
                         fail("AutoStream::auto(pty).current_choice", json!(rep), &c["reported"]);
@@ -91,7 +95,15 @@ pub fn replay(path: &str) -> Value {
             if json!(d) != c["decision"] {
                 fail("AutoStream::choice(Vec)", json!(d), &c["decision"]);
             }
-            let rep = choice_name(anstream::AutoStream::auto(v).current_choice());
+            let sv = anstream::AutoStream::auto(v);
+            checks += 2;
+            if sv.is_terminal() {
+                fail("AutoStream::auto(Vec).is_terminal", json!(true), &json!(false));
+            }
+            if anstream::StripStream::new(regular.try_clone().unwrap()).is_terminal() {
+                fail("StripStream::new(File).is_terminal", json!(true), &json!(false));
+            }
+            let rep = choice_name(sv.current_choice());
             if json!(rep) != c["reported"] {
                 fail("AutoStream::auto(Vec).current_choice", json!(rep), &c["reported"]);
             }
